@@ -450,6 +450,15 @@ pub fn gen_aml(r: &mut Rng, tier: &str, emit: &mut dyn FnMut(String)) {
         "- createfield fieldname 464c4431 local 0 u8 8 u8 16",
         "- field 1 0 0 50524730 3 fnamed 8 41424344 freserved 16 fnamed 1 5f5f5f5f",
     ] { emit(c.to_string()); }
+    // field entries whose width sits on a PkgLength width boundary (the exclusive form's widths
+    // are chosen with the self-inclusive thresholds): alone, named and reserved, and in lists
+    for w in [0u64, 1, 61, 62, 63, 64, 65, 4092, 4093, 4094, 4095, 4096, 4097, (1 << 20) - 4, (1 << 20) - 3, (1 << 20) - 2,
+              (1 << 20) - 1, 1 << 20, (1 << 20) + 1, (1 << 28) - 2, (1 << 28) - 1] {
+        emit(format!("- field 3 1 1 41424344 1 freserved {}", w));
+        emit(format!("- field 5 0 2 5f53425f 1 fnamed {} 46303030", w));
+        emit(format!("- field 1 0 0 50524730 3 fnamed 8 41424344 freserved {} fnamed {} 5f5f5f5f", w, w));
+        emit(format!("- device 5f53425f 1 field 0 0 0 41424344 2 freserved {} fnamed 1 58585858", w));
+    }
     // every leaf and every operator once with simple operands
     let n = if thorough { 60000 } else { 6000 };
     for i in 0..n {
